@@ -32,8 +32,15 @@ def build(repo, findings):
     for rel, struct, fn, flow in [('brush-builtins/src/break_.rs', 'BreakCommand', 'break_execute', 'BreakLoop'),
                                   ('brush-builtins/src/continue_.rs', 'ContinueCommand', 'continue_execute', 'ContinueLoop')]:
         f = builtin(u, rel, struct, fn)
+        import re as _re
+        mctx = _re.search(r'(\w+): brush_core::ExecutionContext', f.text)
+        CTX = mctx.group(1) if mctx else 'context'      # the context parameter's name as written in the source (`_context` today)
         f.sig(fn, ret='res', ensures=[
-            C('C02 %s-n-positive' % flow, 'self_.which_loop >= 1 ==> res is Ok && res->Ok_0.exit_code is Success && res->Ok_0.next_control_flow == (ExecutionControlFlow::%s { levels: (self_.which_loop - 1) as usize })' % flow),
+            C('C02 %s-n-within-the-enclosing-loops' % flow, ('(1 <= self_.which_loop <= old(context.shell).loop_depth()) ==> res is Ok && res->Ok_0.exit_code is Success && res->Ok_0.next_control_flow == (ExecutionControlFlow::%s { levels: (self_.which_loop - 1) as usize })' % flow).replace('context.shell', CTX + '.shell')),
+            C('C02 %s-levels-clamped-to-the-enclosing-loops kf=C02:loop-levels-not-clamped' % flow, ('''{{KF:C02:loop-levels-not-clamped}} || (self_.which_loop >= 1 ==> res is Ok && res->Ok_0.exit_code is Success && (
+    if old(context.shell).loop_depth() == 0 { res->Ok_0.next_control_flow is Normal }
+    else if self_.which_loop as int > old(context.shell).loop_depth() { res->Ok_0.next_control_flow == (ExecutionControlFlow::%s { levels: (old(context.shell).loop_depth() - 1) as usize }) }
+    else { true }))''' % flow).replace('context.shell', CTX + '.shell')),
             C('C02 %s-n-nonpositive kf=C02:loop-count-nonpositive' % flow, '{{KF:C02:loop-count-nonpositive}} || (self_.which_loop <= 0 ==> res is Ok && res->Ok_0.exit_code is GeneralError && res->Ok_0.next_control_flow is BreakLoop)'),
             C('C02 %s-never-errs' % flow, 'res is Ok'),
         ])
